@@ -27,7 +27,8 @@ THEOREMS = [
     "wasserstein_matching_flag_irrelevant", "wasserstein_matching_cert", "wasserstein_cert_checker_sound",
 ]
 RULE = ("seeded generator shared with C01: exact family (coordinates (k/4)*2^s) and tolerance family (random doubles), "
-        "classes {generic, empty_side, both_empty, repeated, diagonal, ties, inf, scale, near_tie, permuted, big, tol}, "
+        "classes {generic, empty_side, both_empty, repeated, diagonal, ties, inf, scale, near_tie, permuted, big, tol} "
+        "plus C02's input-dtype class (integer-valued diagrams as uint8..float64 arrays, spec on the values), "
         "sizes 0-6 per side (quick) / up to 16 (thorough); every batch under PYTHONHASHSEED 0,1,2; both distances are "
         "called with matching=False and matching=True. A case is non-trivial when both calls succeed and either one of "
         "the two returned matchings contains a cross pairing and a diagonal pairing, or an empty-diagram / "
@@ -53,9 +54,15 @@ COQ_DEPS = ["Corr/BneckCorr.vo", "Corr/WassCorr.vo"]
 
 
 # ------------------------------------------------------------------------------------ cases
+def _dtype_case(rng, nmax):
+    """C02's input-dtype class (integer-valued diagrams as uint8 ... float64 arrays) in C01's case format."""
+    c = c02._dtype_case(rng, nmax)
+    return {"cls": "dtype", "family": "exact", "S": c["S"], "T": c["T"], "rep": "array", "dtype": c["dtype"]}
+
+
 def generate(rng, tier):
     n_cases, maxn = (200, 6) if tier == "quick" else (2000, 16)
-    cases = []
+    cases = [_dtype_case(rng, 5) for _ in range(24 if tier == "quick" else 240)]
     for _ in range(n_cases):
         cls = rng.choice(c01.CLASSES)
         mx = maxn
@@ -66,7 +73,8 @@ def generate(rng, tier):
 
 
 def search_generate(rng, n):
-    return [c01._gen_case(rng, rng.choice(c01.CLASSES), rng.choice([1, 2, 3, 4])) for _ in range(n)]
+    return [(_dtype_case(rng, 3) if i % 6 == 5 else c01._gen_case(rng, rng.choice(c01.CLASSES), rng.choice([1, 2, 3, 4])))
+            for i in range(n)]
 
 
 def corpus():
@@ -83,6 +91,10 @@ def corpus():
         {"S": [[0.0, 4.0], [1.0, 1.25]], "T": [[3.0, 3.5], [0.25, 4.0], [2.0, 2.5]], "family": "exact", "rep": "array"},
         {"S": [[0.0, 4.0], [1.0, "inf"]], "T": [[0.5, 4.5], [0.0, "inf"], [2.0, "inf"]], "family": "exact", "rep": "array"},
         {"S": [[0.0, "inf"]], "T": [[0.0, 2.0]], "family": "exact", "rep": "array"},
+        # narrow / unsigned input dtypes: |3-100| wraps to 159 in uint8, 100-(-100) overflows int8
+        {"S": [[3.0, 200.0]], "T": [[100.0, 120.0]], "family": "exact", "rep": "array", "dtype": ["uint8", "uint8"]},
+        {"S": [[-100.0, 100.0]], "T": [[90.0, 110.0]], "family": "exact", "rep": "array", "dtype": ["int8", "int8"]},
+        {"S": [[-100.0, 100.0]], "T": [], "family": "exact", "rep": "array", "dtype": ["int8", "int8"]},
     ]
     d = core.VERIF / "corpus" / PID
     if d.is_dir():
@@ -97,13 +109,37 @@ def corpus():
 
 # ------------------------------------------------------------------------------------ implementation
 def _w_case(c):
-    return {"S": c["S"], "T": c["T"], "as_list": c.get("rep") == "list"}
+    w = {"S": c["S"], "T": c["T"], "as_list": c.get("rep") == "list"}
+    if c.get("dtype"):
+        w["dtype"] = c["dtype"]
+        w["as_list"] = False
+    return w
 
 
 def impl_run(cases):
     """Both distances, with and without the matching (the C01 / C02 runners: they also monitor the
-    external routines and guard against a non-terminating search)."""
-    ob = c01.impl_run(cases)
+    external routines and guard against a non-terminating search).  Cases of class dtype hand the
+    diagrams over as arrays of the requested dtype (to both functions)."""
+    import numpy as np
+    want = {}
+    for c in cases:
+        if c.get("dtype"):
+            want[id(c["S"])] = c["dtype"][0]
+            want[id(c["T"])] = c["dtype"][1]
+    real_arr = c01._arr
+
+    def arr(P, rep):
+        dt = want.get(id(P))
+        if dt is None or any(d == "inf" for _, d in P):
+            return real_arr(P, rep)
+        dt = np.dtype(dt)
+        vals = [[float(b), float(d)] for b, d in P] if dt.kind == "f" else [[int(b), int(d)] for b, d in P]
+        return np.array(vals, dtype=dt).reshape(-1, 2) if P else np.array([], dtype=dt)
+    c01._arr = arr
+    try:
+        ob = c01.impl_run(cases)
+    finally:
+        c01._arr = real_arr
     ow = c02.impl_run([_w_case(c) for c in cases])
     return [{"b": b, "w": w} for b, w in zip(ob, ow)]
 
@@ -208,6 +244,15 @@ def coq_judge(cases, outs, results):
     return out
 
 
+def finding_of(c, o, detail):
+    """Bottleneck computed in the input dtype (unsigned wrap-around / narrow-int overflow): only an
+    instance of the finding when the case is of the dtype class and the bottleneck half is what fails."""
+    if c.get("dtype") and any(d in ("uint8", "uint16", "int8", "int16", "int32") for d in c["dtype"]) \
+            and detail.startswith("bottleneck-"):
+        return "C01-bottleneck-input-dtype"
+    return None
+
+
 # ------------------------------------------------------------------------------------ shrinking
 def shrink_candidates(c):
     for key in ("S", "T"):
@@ -219,3 +264,10 @@ def shrink_candidates(c):
         d = dict(c)
         d["rep"] = "array"
         yield d
+    if c.get("dtype"):
+        for side in (0, 1):
+            if c["dtype"][side] != "float64":
+                d = dict(c)
+                d["dtype"] = list(c["dtype"])
+                d["dtype"][side] = "float64"
+                yield d
